@@ -168,11 +168,14 @@ def run_case(ctx, case, model=True):
         elif detail is not None:
             for nid, comps_ in R.nodes_of(plant, side):
                 for comp in comps_:
-                    if comp.name not in got_rows:
+                    has_row = (side == "electric" and comp.power_type in (TypePower.POWER_SOURCE, TypePower.PTI_PTO, TypePower.ENERGY_STORAGE)) or \
+                        (side == "mechanical" and comp.type in (TypeComponent.MAIN_ENGINE, TypeComponent.MAIN_ENGINE_WITH_GEARBOX, TypeComponent.PTI_PTO_SYSTEM))
+                    if not has_row:
                         continue
                     cr = R.component_result(comp, dt, spec_by)
                     # names repeat across switchboards / shaft lines: the row of this component is the one of its node
-                    sel = detail[(detail.index == comp.name) & (detail["switchboard id" if side == "electric" else "shaftline id"] == nid)]
+                    sel = detail[(detail.index == comp.name) & (detail["switchboard id" if side == "electric" else "shaftline id"] == nid)
+                                 & (detail["component type"] == comp.type.name)]
                     if len(sel) != 1:
                         ctx.fail("predicate", "detail-rows", f"{side}: {len(sel)} rows for {comp.name} on node {nid}", where)
                         continue
